@@ -441,6 +441,15 @@ impl World {
             enrs.push(mk_enr(&key, 9, Some(wrong)));
             peers.push(Peer { id: enrs[0].node_id(), key, addr, enrs, keys: vec![] });
         }
+        // a node whose record is signed with an Ed25519 key: nobody can prove to be it (the id
+        // signature scheme only supports secp256k1), whatever bytes are presented as a signature
+        {
+            let i = npeers;
+            let key = CombinedKey::generate_ed25519();
+            let addr: SocketAddr = format!("10.2.0.{}:{}", i + 1, 9000 + i).parse().unwrap();
+            let enrs = vec![mk_enr(&key, 1, Some(addr)), mk_enr(&key, 2, Some(addr)), mk_enr(&key, 4, Some(addr)), mk_enr(&key, 9, Some(addr))];
+            peers.push(Peer { id: enrs[0].node_id(), key, addr, enrs, keys: vec![] });
+        }
         World {
             pid: ProtocolIdentity::default(),
             local_id: local_enr.node_id(),
@@ -779,13 +788,14 @@ impl Runner {
                         msgs.push(format!("event for request after its terminal outcome (Response after {})", q.terminal));
                     }
                     q.responses_seen += 1;
-                    q.answered = true;
                     let terminal = match &r.body {
                         ResponseBody::Nodes { total, .. } => *total <= 1 || q.responses_seen >= *total,
                         _ => true,
                     };
                     if terminal {
                         q.terminal += 1;
+                        // a partially answered multi-packet request is still unanswered
+                        q.answered = true;
                     }
                     let _ = now;
                 }
@@ -1085,8 +1095,12 @@ impl Runner {
                         self.w.failures.push(("C01".into(), "a party without the secret key of node X completed a handshake as X".into()));
                     }
                 }
-                if kind == "replay-hs" && !self.buffered_outs.is_empty() {
-                    self.w.failures.push(("C03".into(), "a replayed handshake packet had an effect".into()));
+                // C03: a replayed handshake never creates or re-keys a session (it may still be
+                // rejected with an error that fails the exchange it arrives in)
+                if kind == "replay-hs"
+                    && self.buffered_outs.iter().any(|o| matches!(o, HandlerOut::Established(..) | HandlerOut::UnverifiableEnr { .. } | HandlerOut::Request(..) | HandlerOut::Response(..)))
+                {
+                    self.w.failures.push(("C03".into(), "a replayed handshake packet was accepted (session established / message delivered)".into()));
                 }
                 self.close_step(format!("EvInbound {} {}", a, t.coq()));
             }
@@ -1169,9 +1183,17 @@ impl Runner {
             self.w.register_key(ik2, KeyT { eph: eph_id_real, st: l, cd: cdid, ida: a, idb: l, half: false });
             self.w.register_key(rk2, KeyT { eph: eph_id_real, st: l, cd: cdid, ida: a, idb: l, half: true });
         }
-        let mut sig = toolkit_sign_nonce(&self.w.peers[signer].key, &cd, &eph, &local_id).unwrap();
         let signer_id = self.w.peers[signer].id;
-        let mut sig_term = ASig::Sig(self.w.it.id(&signer_id), cdid, eph_id_real, l);
+        let (mut sig, mut sig_term) = match toolkit_sign_nonce(&self.w.peers[signer].key, &cd, &eph, &local_id) {
+            Some(sg) => (sg, ASig::Sig(self.w.it.id(&signer_id), cdid, eph_id_real, l)),
+            None => {
+                // an Ed25519 identity: any 64 bytes
+                let sg = rng.bytes(64);
+                let t = ASig::Bad(self.w.it.get('s', &sg));
+                (sg, t)
+            }
+        };
+        let ed_signer = matches!(sig_term, ASig::Bad(_));
         if matches!(variant, HsVariant::BadSignature) {
             let k = rng.below(sig.len() as u64) as usize;
             sig[k] ^= 1 << rng.below(8);
@@ -1184,9 +1206,11 @@ impl Runner {
             for b in eph.iter_mut().skip(2) {
                 *b = 0xff;
             }
-            sig = toolkit_sign_nonce(&self.w.peers[signer].key, &cd, &eph, &local_id).unwrap();
-            let e2 = self.w.it.eph(&eph);
-            sig_term = ASig::Sig(self.w.it.id(&signer_id), cdid, e2, l);
+            if let Some(sg) = toolkit_sign_nonce(&self.w.peers[signer].key, &cd, &eph, &local_id) {
+                sig = sg;
+                let e2 = self.w.it.eph(&eph);
+                sig_term = ASig::Sig(self.w.it.id(&signer_id), cdid, e2, l);
+            }
         }
         self.w.sig_terms.insert(sig.clone(), sig_term);
         let mut nonce = [0u8; 12];
@@ -1202,14 +1226,16 @@ impl Runner {
         p.message = ct;
         let bytes = wire_encode(&p, self.w.pid, &local_id);
         let src = ch_addr;
-        let honest_signer = signer == pi;
+        let honest_signer = signer == pi && !ed_signer;
         if honest_signer && !matches!(variant, HsVariant::BadSignature | HsVariant::BadEphemeral | HsVariant::WrongStatic) {
             // the peer now shares these keys: it encrypts with the initiator key
             self.w.peers[pi].keys.push((ik, rk));
         }
-        let consumed = !matches!(variant, HsVariant::BadSignature);
-        if !consumed {
-            // an invalid signature leaves the challenge outstanding and restarts its timer
+        let consumed = !matches!(variant, HsVariant::BadSignature) && !ed_signer;
+        {
+            // a handshake that fails the signature check (also a forged one) leaves the challenge
+            // outstanding and restarts its timer; the ledger keeps every challenge a handshake was
+            // aimed at alive for a further period (it may over-approximate, never under-approximate)
             let now = self.w.now + GRID_MS;
             for c in self.w.out_challenges.iter_mut() {
                 if c.1 == cd {
@@ -1217,6 +1243,7 @@ impl Runner {
                 }
             }
         }
+        // a handshake in the name of an Ed25519 node proves nothing either
         let forged = if honest_signer { None } else { Some(pi) };
         self.inject(src, bytes, "handshake", signer, false, forged).await;
         if consumed {
@@ -1274,7 +1301,12 @@ impl Runner {
             (true, 1) => ResponseBody::Nodes { total: 3, nodes: vec![self.w.peers[pi].enrs[2].clone()] },
             (true, 2) => ResponseBody::Nodes { total: 1, nodes: vec![] },
             (true, 3) => ResponseBody::Nodes { total: 1, nodes: vec![self.w.peers[pi].enrs[1].clone()] },
-            (true, 4) => ResponseBody::Nodes { total: 1, nodes: vec![self.w.peers[(pi + 1) % self.w.peers.len()].enrs[0].clone()] },
+            (true, 4) => {
+                // the record of another node: with its address, or without any address (so that only the id check can reject it)
+                let other = (pi + 1) % self.w.peers.len();
+                let rec = if rng.chance(1, 2) { self.w.peers[other].enrs[0].clone() } else { mk_enr(&self.w.peers[other].key, 6, None) };
+                ResponseBody::Nodes { total: 1, nodes: vec![rec] }
+            }
             (_, 5) => ResponseBody::Talk { response: rng.bytes(4) },
             _ => ResponseBody::Pong { enr_seq: 2, ip: IpAddr::V4(Ipv4Addr::new(10, 1, 0, 1)), port: NonZeroU16::new(9000).unwrap() },
         };
@@ -1420,9 +1452,11 @@ fn gen_move(rng: &mut Rng, npeers: usize, focus: &str) -> Move {
         "c13" => &[16, 2, 10, 6, 8, 14, 6, 10, 14, 6, 4, 10],
         _ => &[18, 1, 10, 8, 8, 12, 8, 14, 8, 5, 3, 12],
     };
-    let p = rng.below(npeers as u64) as usize;
+    let p_secp = rng.below(npeers as u64) as usize;
+    // the last peer (index npeers) has an Ed25519 identity; requests are never addressed to it
+    let p = if rng.chance(1, 6) { npeers } else { p_secp };
     match rng.weighted(w) {
-        0 => Move::AppRequest { peer: p, with_enr: rng.chance(2, 3), kind: rng.below(3) as u8 },
+        0 => Move::AppRequest { peer: p_secp, with_enr: rng.chance(2, 3), kind: rng.below(3) as u8 },
         1 => Move::AppSelfRequest,
         2 => Move::AppAnswerWru { idx: rng.below(8) as usize, known: rng.below(4) as u8 },
         3 => Move::AppRespond { idx: rng.below(8) as usize, multi: rng.below(3) as u8 },
